@@ -1,12 +1,12 @@
 \* C09 seeded sample (tlc -simulate, one finished source per trace, depth >= 60): 2..3 masters on one axis (default
-\* first or in the middle), glyphs a b c d, per master and side every assignment of the glyphs to {ungrouped, A, B}
+\* first or in the middle), glyphs a b c d, per master and side every assignment of the glyphs to {ungrouped, A, B} (side 1 also A_1, a name fontc may synthesize)
 \* (a later master copies the previous master's groups of a side with probability 1/2: SameBias), 0..3 kerning
 \* entries per master from all four pair kinds, values -40, 0, 25 (Den = 2: half units).
 SPECIFICATION Spec
 CONSTANTS
     Source = "gen"
     NGlyphs = 4
-    Names1 = {"A", "B"}
+    Names1 = {"A", "A_1", "B"}
     Names2 = {"A", "B"}
     NMasters = {2, 3}
     DefaultAt = {"first", "middle"}
